@@ -14,7 +14,7 @@ RULE = ('one case = one real invocation under the resolver/connect doubles (scri
         'surrounding whitespace and CRLF} x {-p absent, present} x {none, -4, -6, -46, -64} x resolver answer orders {v4 first, v6 first, v4 only, v6 only}; a subset runs against the real resolver and stack (127.x.y.z, ::1).  '
         'Oracle: every resolver query carries exactly the modelled host and port and the family implied by the option; every connect goes to the first address of the modelled candidate list (requested families only, requested order); '
         'the label in JSON / multi-target / policy output follows the spelling rule; an invalid port yields no query, no connect and a non-zero status.  Non-trivial: >= 1 resolver query or a rejected port observed; distinct = distinct invocations')
-REQUIRED = {'invocations': 200, 'resolver_queries': 200, 'connects_checked': 150, 'labels_checked': 100, 'invalid_ports': 15, 'targets_file_runs': 30, 'ipv_option_runs': 60, 'real_stack_runs': 5}
+REQUIRED = {'reconnects_checked': 300, 'invocations': 200, 'resolver_queries': 200, 'connects_checked': 150, 'labels_checked': 100, 'invalid_ports': 15, 'targets_file_runs': 30, 'ipv_option_runs': 60, 'real_stack_runs': 5}
 ASSUMPTIONS = ['host:port in the target wins over -p (the statement calls -p the default)',
                'the tool is only required to try candidates in order; whether it falls back to the second address after a failure is not part of the property']
 MANIFEST = {
@@ -30,6 +30,12 @@ MINI = None
 
 def mini_script():
     return {'banner': 'SSH-2.0-OpenSSH_9.3', 'kex': audit.sym_kex(['sntrup761x25519-sha512@openssh.com', 'kex-strict-s-v00@openssh.com'], ['ssh-ed25519'], ['aes256-gcm@openssh.com'], ['hmac-sha2-512-etm@openssh.com']), 'hostkeys': {}, 'gex': None}
+
+
+def probe_script():
+    # a peer whose audit needs several connections (host-key and group-exchange probes): every one of them goes to the address the first one went to
+    return {'banner': 'SSH-2.0-OpenSSH_9.3', 'kex': audit.sym_kex(['curve25519-sha256', 'diffie-hellman-group-exchange-sha256', 'kex-strict-s-v00@openssh.com'], ['ssh-ed25519', 'rsa-sha2-512'], ['aes256-gcm@openssh.com'], ['hmac-sha2-512-etm@openssh.com']),
+            'hostkeys': {'ssh-ed25519': {'type': 'ed25519'}, 'rsa-sha2-512': {'type': 'rsa', 'bits': 3072}}, 'gex': {'sizes': [3072], 'style': 'strict'}}
 
 
 def cases(tier, seed):
@@ -135,8 +141,9 @@ def label_for(host, port, v6):
 def run_spelling(c):
     t, extra, exp = spell(c)
     viol, counters = [], {'invocations': 1}
-    p4 = peermod.ServerPeer(mini_script(), host='127.0.0.1')
-    p6 = peermod.ServerPeer(mini_script(), host='::1')
+    script = probe_script() if c.get('ipcase') else mini_script()
+    p4 = peermod.ServerPeer(script, host='127.0.0.1')
+    p6 = peermod.ServerPeer(script, host='::1')
     ans = answers_for(c, c['host'])
     spec = {'resolver': {'answers': {c['host']: ans}, 'redirect': ['127.0.0.1', p4.port], 'redirect6': ['::1', p6.port]}}
     d = runner.scratch_dir('c18')
@@ -206,6 +213,7 @@ def run_spelling(c):
     if len(pref) == 2:
         cands = sorted(cands, key=lambda a: pref.index(a[0]))
     counters['connects_checked'] = len(want)
+    counters['reconnects_checked'] = max(0, len(want) - 1)
     if not cands:
         if want:
             viol.append(_v('C18/connect-to-unrequested-family:' + ''.join(c['ip']), 'a connection was attempted although no address of the requested family exists', connects=want[:2]))
